@@ -95,6 +95,10 @@ def step(hx, st, n, tag, ops=None, small=False):
     val = hx.int(8, "val%d" % n) + 1
     before = snapshot(st)
     n_before = len(st)
+    # identity stability across the step: what each pool address / IP resolves to before the operation ...
+    ips = sorted({a[0] for a in ADDRS})
+    by_addr_before = {a: st.match_incoming(a) for a in ADDRS}
+    by_ip_before = {ip: st.match_ip_incoming(ip) for ip in ips}
     existing = [r for r in st.all() if r.address_in == addr]
     rec = existing[0] if existing else None
     what = "%s %s" % (tag, op)
@@ -214,6 +218,14 @@ def step(hx, st, n, tag, ops=None, small=False):
                 for f, v in patch.items():
                     hx.prove((getattr(rec, f) == v) if f in ("dmr_id", "callsign", "address_out") else (rec.attr(f) == v), "%s: patched %s has the new value" % (what, f))
                 unchanged(hx, before, st, rec, what, changed_fields=[f for f in patch if f in ("dmr_id", "callsign", "address_out")], changed_attrs=[f for f in patch if f in KEYS])
+    # ... is what it resolves to afterwards (no operation here moves or removes a record; a record created by the step can only answer
+    # for an address / IP that had no record before)
+    for a in ADDRS:
+        if by_addr_before[a] is not None:
+            hx.prove(st.match_incoming(a) is by_addr_before[a], "%s: address %s:%d still resolves to the same record (same id) afterwards" % (what, a[0], a[1]))
+    for ip in ips:
+        if by_ip_before[ip] is not None:
+            hx.prove(st.match_ip_incoming(ip) is by_ip_before[ip], "%s: IP %s still resolves to the same record afterwards" % (what, ip))
     invariant(hx, st, "after " + what)
 
 
